@@ -42,6 +42,10 @@ func (pc *pooledConnectImpl) Recycle() {
 		pc.Close()
 	}
 	if pc.IsClosed() {
+		// The slot goes back empty, so the socket must really be gone: a connection that
+		// re-dialed in place after a broken pipe is alive although it is flagged closed,
+		// and dropping it here would leave it (and its transaction) open on the backend.
+		pc.Close()
 		pc.pool.Put(nil)
 	} else {
 		pc.pool.Put(pc)
